@@ -288,6 +288,9 @@ def _extract_candidates(fn):
                     continue
                 if all(isinstance(s_, ast.Expr) and isinstance(s_.value, ast.Constant) for s_ in sub_):
                     continue
+                if any(isinstance(x, ast.Call) and isinstance(x.func, ast.Name) and x.func.id == "super" and not x.args
+                       for s_ in sub_ for x in ast.walk(s_)):
+                    continue      # zero-argument super() only works inside the class body
                 cands.append((blk, i, i + size))
     return cands, local
 
@@ -308,7 +311,8 @@ def _do_extract(fn, tree_body, which):
     # comprehension targets are not function locals
     comp_t = {y.id for s_ in sub_ for c in ast.walk(s_) if isinstance(c, ast.comprehension) for y in ast.walk(c.target)
               if isinstance(y, ast.Name)}
-    stores = [s_ for s_ in stores if s_ not in comp_t or s_ in local - comp_t]
+    comp_nodes = {id(y) for s_ in sub_ for c in ast.walk(s_) if isinstance(c, ast.comprehension) for y in ast.walk(c.target)}
+    stores = [x.id for x in _names(sub_, ast.Store) if id(x) not in comp_nodes]
     # a name both written in the block and read anywhere outside it is an output
     outside_loads = {x.id for x in ast.walk(fn) if isinstance(x, ast.Name) and isinstance(x.ctx, ast.Load)
                      and id(x) not in inside}
